@@ -40,7 +40,7 @@ Section Weight.
     t_add_rec t d (utf16 n) i st = Some (t', g) -> ltotal w t' = ltotal w t.
   Proof.
     intros Hok Hb H. unfold t_add_rec in H.
-    destruct (t_add_node_spec t d _ t' g Hok I H) as (_ & _ & _ & _ & A5 & _).
+    destruct (t_add_node_spec t d (LFile (utf16 n) i st) t' g Hok I H) as (_ & _ & _ & _ & A5 & _).
     rewrite (A5 w Hdl), ltotal_file, (Hfile n i st Hb). lia.
   Qed.
 
@@ -90,6 +90,17 @@ Section Weight.
   Lemma mj_bytes_pn x : bytes_pn x = true -> bytes (snd x).
   Proof. unfold bytes_pn. intros H. apply andb_prop in H. apply bytes_ident_spec. tauto. Qed.
 
+  Ltac mj_split :=
+    repeat (match goal with
+            | |- context [t_add_rec ?a ?b ?c ?d ?e] => destruct (t_add_rec a b c d e) as [[? ?]|] eqn:?
+            | |- context [t_add_dir ?a ?b ?c] => destruct (t_add_dir a b c) as [[? ?]|] eqn:?
+            | |- context [t_rm_dir ?a ?b] => destruct (t_rm_dir a b) as [[[[? ?] ?] ?]|] eqn:?
+            | |- context [add_to_ptr_size ?a ?b ?c] => destruct (add_to_ptr_size a b c) as [[? ?] ?] eqn:?
+            | |- context [remove_from_ptr_size ?a ?b ?c] =>
+                destruct (remove_from_ptr_size a b c) as [[[? ?] ?]|] eqn:?
+            | |- context [if ?c then _ else _] => destruct c eqn:?
+            end; cbv beta iota zeta).
+
   Theorem mj_step_le k s o : lall_ok (njol s) -> bytes_op o = true ->
     ltotal w (njol (fst (nstep k s o))) <= ltotal w (njol s).
   Proof.
@@ -99,44 +110,22 @@ Section Weight.
       apply andb_prop in Hb. destruct Hb as [_ Hbj]. unfold nstep_add_file.
       destruct jol as [[dj nj]|].
       + cbn [opt_legal] in Hbj. apply mj_bytes_pn in Hbj. cbn [snd] in Hbj.
-        destruct iso as [[di ni]|];
-          repeat match goal with
-                 | |- context [if ?c then _ else _] => destruct c eqn:?
-                 | |- context [match ?x with Some _ => _ | None => _ end] => destruct x as [[? ?]|] eqn:?
-                 end; cbn [fst njol set_trees add_orphan]; try lia;
+        destruct iso as [[di ni]|]; mj_split; cbn [fst njol set_trees add_orphan]; try lia;
           match goal with
           | H : t_add_rec (njol s) _ (utf16 nj) _ _ = Some (?t2, _) |- _ =>
               rewrite (mj_add_rec_eq _ _ _ _ _ _ _ Hok Hbj H); lia
           end.
-      + destruct iso as [[di ni]|]; [|cbn; lia].
-        repeat match goal with
-               | |- context [if ?c then _ else _] => destruct c eqn:?
-               | |- context [match ?x with Some _ => _ | None => _ end] => destruct x as [[? ?]|] eqn:?
-               end; cbn [fst njol set_trees add_orphan]; lia.
+      + destruct iso as [[di ni]|]; mj_split; cbn [fst njol set_trees add_orphan]; lia.
     - (* add_directory *)
       apply andb_prop in Hb. destruct Hb as [_ Hbj]. unfold nstep_add_dir.
       destruct jol as [[dj nj]|].
       + cbn [opt_legal] in Hbj. apply mj_bytes_pn in Hbj. cbn [snd] in Hbj.
-        destruct iso as [[di ni]|];
-          repeat match goal with
-                 | |- context [if ?c then _ else _] => destruct c eqn:?
-                 | |- context [let '(_, _, _) := ?x in _] => destruct x as [[? ?] ?] eqn:?
-                 | |- context [match ?x with Some _ => _ | None => _ end] =>
-                     first [destruct x as [[[[? ?] ?] ?]|] eqn:? | destruct x as [[? ?]|] eqn:?]
-                 end; cbn [fst njol set_all]; try lia;
+        destruct iso as [[di ni]|]; mj_split; cbn [fst njol set_all]; try lia;
           match goal with
           | H : t_add_dir (njol s) _ (utf16 nj) = Some (?t2, _) |- _ =>
-              try (match goal with E : Some _ = Some _ |- _ => injection E as <- _ _ _ end);
-              try (match goal with E : Some (_, _, _, _) = Some (_, _, _, _) |- _ => injection E as <- _ _ _ end);
-              rewrite ?(mj_add_dir_eq _ _ _ _ _ Hok Hbj H); try lia
+              rewrite (mj_add_dir_eq _ _ _ _ _ Hok Hbj H); lia
           end.
-      + destruct iso as [[di ni]|]; [|cbn; lia].
-        repeat match goal with
-               | |- context [if ?c then _ else _] => destruct c eqn:?
-               | |- context [let '(_, _, _) := ?x in _] => destruct x as [[? ?] ?] eqn:?
-               | |- context [match ?x with Some _ => _ | None => _ end] =>
-                   first [destruct x as [[[[? ?] ?] ?]|] eqn:? | destruct x as [[? ?]|] eqn:?]
-               end; cbn [fst njol set_all]; lia.
+      + destruct iso as [[di ni]|]; mj_split; cbn [fst njol set_all]; lia.
     - (* add_hard_link *)
       apply andb_prop in Hb. destruct Hb as [_ Hbn]. apply bytes_ident_spec in Hbn. unfold nstep_add_link.
       destruct (lsubtree (ns_path sns src) (tree_of s sns)) as [[on ino ost|on odl okids]|]; try (cbn; lia).
@@ -160,20 +149,100 @@ Section Weight.
     - (* rm_directory *)
       unfold nstep_rm_dir.
       destruct jol as [pj|].
-      + destruct iso as [pi|];
-          repeat match goal with
-                 | |- context [match ?x with Some _ => _ | None => _ end] =>
-                     first [destruct x as [[[[? ?] ?] ?]|] eqn:? | destruct x as [[[? ?] ?]|] eqn:?]
-                 end; cbn [fst njol set_all]; try lia;
+      + destruct iso as [pi|]; mj_split; cbn [fst njol set_all]; try lia;
           match goal with
           | H : t_rm_dir (njol s) _ = Some (?t2, _, _, _) |- _ =>
-              pose proof (mj_rm_dir_le _ _ _ _ _ _ Hok H);
-              repeat match goal with E : Some _ = Some _ |- _ => injection E as ? ? ? ?; subst end; try lia
+              pose proof (mj_rm_dir_le _ _ _ _ _ _ Hok H); lia
           end.
-      + destruct iso as [pi|]; [|cbn; lia].
-        repeat match goal with
-               | |- context [match ?x with Some _ => _ | None => _ end] =>
-                   first [destruct x as [[[[? ?] ?] ?]|] eqn:? | destruct x as [[[? ?] ?]|] eqn:?]
-               end; cbn [fst njol set_all]; lia.
+      + destruct iso as [pi|]; mj_split; cbn [fst njol set_all]; lia.
   Qed.
 End Weight.
+
+(* ---- every identifier of the Joliet tree decodes ---------------------------------------------------------- *)
+
+Definition mj_wnd (n : lnode) : Z := if MJ.mj_decodes (lname n) then 0 else 1.
+
+Lemma mj_wnd_nonneg n : 0 <= mj_wnd n.
+Proof. unfold mj_wnd. destruct (MJ.mj_decodes (lname n)); lia. Qed.
+Lemma mj_wnd_dl_free : dl_free mj_wnd.
+Proof. intros nm d d'. reflexivity. Qed.
+Lemma mj_decodes_utf16 nm : bytes nm -> MJ.mj_decodes (utf16 nm) = true.
+Proof. intros H. unfold MJ.mj_decodes. rewrite (mj_dec_utf16 nm H). reflexivity. Qed.
+Lemma mj_wnd_file nm i st : bytes nm -> mj_wnd (LFile (utf16 nm) i st) = 0.
+Proof. intros H. unfold mj_wnd. cbn [lname]. rewrite (mj_decodes_utf16 nm H). reflexivity. Qed.
+Lemma mj_wnd_dir nm d : bytes nm -> mj_wnd (LDir (utf16 nm) d []) = 0.
+Proof. intros H. unfold mj_wnd. cbn [lname]. rewrite (mj_decodes_utf16 nm H). reflexivity. Qed.
+
+Lemma mj_run_le ops : forall k s, NInv k s -> clean_from k s ops = true -> forallb bytes_op ops = true ->
+  ltotal mj_wnd (njol (nrun_from k s ops)) <= ltotal mj_wnd (njol s).
+Proof.
+  induction ops as [|o r IH]; intros k s HI Hc Hb; cbn [nrun_from]; [lia|].
+  unfold clean_from in Hc. cbn [nouts_from existsb] in Hc. rewrite negb_orb in Hc.
+  apply andb_prop in Hc. destruct Hc as [H1 H2]. cbn [forallb] in Hb. apply andb_prop in Hb.
+  destruct Hb as [Hbo Hbr].
+  assert (HI' : NInv (S k) (fst (nstep k s o))).
+  { apply nstep_preserves_inv; [exact HI|]. intros E. rewrite E in H1. discriminate. }
+  specialize (IH (S k) _ HI' H2 Hbr).
+  pose proof (mj_step_le mj_wnd mj_wnd_nonneg mj_wnd_dl_free mj_wnd_file mj_wnd_dir k s o
+                (ninv_jtree k s HI) Hbo). lia.
+Qed.
+
+Lemma mj_names_of_wnd : forall n, ltotal mj_wnd n <= 0 -> MJ.mj_names_ok n = true.
+Proof.
+  apply (lnode_ind' (fun n => ltotal mj_wnd n <= 0 -> MJ.mj_names_ok n = true)).
+  - intros nm i st H. rewrite ltotal_file in H. unfold mj_wnd in H. cbn [lname MJ.mj_names_ok] in *.
+    destruct (MJ.mj_decodes nm); [reflexivity|lia].
+  - intros nm dl kids IH H. rewrite ltotal_dir in H.
+    pose proof (ltotals_nonneg mj_wnd mj_wnd_nonneg kids) as Hk. pose proof (mj_wnd_nonneg (LDir nm dl [])) as Hn.
+    cbn [MJ.mj_names_ok]. apply andb_true_intro. split.
+    + change (mj_wnd (LDir nm dl [])) with (if MJ.mj_decodes nm then 0 else 1) in H, Hn.
+      destruct (MJ.mj_decodes nm); [reflexivity|lia].
+    + assert (Hz : ltotals mj_wnd kids <= 0) by lia. clear H Hk Hn.
+      apply forallb_forall. induction IH as [|c r Hc _ IHr]; intros x Hx; [destruct Hx|].
+      rewrite ltotals_cons in Hz. pose proof (ltotal_nonneg mj_wnd mj_wnd_nonneg c).
+      pose proof (ltotals_nonneg mj_wnd mj_wnd_nonneg r).
+      destruct Hx as [<-|Hx]; [apply Hc; lia|apply IHr; [lia|exact Hx]].
+Qed.
+
+(* after an accepted history whose names are Python bytes every Joliet identifier is UTF-16BE *)
+Theorem mj_reach_names_ok ops : clean ops = true -> forallb bytes_op ops = true ->
+  MJ.mj_kid_names_ok (njol (nrun ops)) = true.
+Proof.
+  intros Hc Hb. pose proof (mj_run_le ops 0%nat ninit ninit_ok Hc Hb) as Hle. fold (nrun ops) in Hle.
+  change (ltotal mj_wnd (njol ninit)) with 1 in Hle.
+  pose proof (ninv_jroot _ _ (nrun_inv ops Hc)) as [Hn Hd].
+  destruct (njol (nrun ops)) as [nm i st|nm dl kids]; [discriminate|]. cbn [lname] in Hn. subst nm.
+  rewrite ltotal_dir in Hle. change (mj_wnd (LDir [0] dl [])) with 1 in Hle.
+  unfold MJ.mj_kid_names_ok. cbn [lkids]. apply forallb_forall. intros c Hc'.
+  apply mj_names_of_wnd. pose proof (ltotals_nonneg mj_wnd mj_wnd_nonneg kids).
+  assert (Hz : ltotals mj_wnd kids <= 0) by lia. clear Hle Hd H.
+  induction kids as [|c0 r IHr]; [destruct Hc'|]. rewrite ltotals_cons in Hz.
+  pose proof (ltotal_nonneg mj_wnd mj_wnd_nonneg c0). pose proof (ltotals_nonneg mj_wnd mj_wnd_nonneg r).
+  destruct Hc' as [<-|Hc']; [lia|apply IHr; [exact Hc'|lia]].
+Qed.
+
+(* THEOREM 1 for every accepted history of byte names: the image is written and the Joliet reader
+   recovers the Joliet tree.  Side conditions: the volume fits 2^32 blocks, every directory extent is
+   shorter than 4 GiB, at most 65535 Joliet directories (the struct formats of the library). *)
+Theorem joliet_read_master_reachable dt ops : length dt = 7%nat ->
+  clean ops = true -> forallb bytes_op ops = true ->
+  nlayout_end (nrun ops) <= 4294967296 ->
+  MJ.mj_dl_ok (niso (nrun ops)) = true -> MJ.mj_dl_ok (njol (nrun ops)) = true ->
+  Z.of_nat (length (MJ.mj_dir_positions (njol (nrun ops)))) <= 65535 ->
+  exists img, MJ.master_joliet dt (nrun ops) = Some img /\
+    MJ.read_joliet (MJ.mj_height (njol (nrun ops))) img
+      (nth 4 (MJ.mj_svd (nrun ops)) 0) (nth 5 (MJ.mj_svd (nrun ops)) 0) = Some (MJ.mj_uview (nrun ops)).
+Proof.
+  intros Hdt Hc Hb He Hi Hj Hn.
+  apply MasterJolietProofs.joliet_read_master; try assumption.
+  - apply MasterJolietProofs.joliet_reachable_wf; assumption.
+  - apply mj_reach_names_ok; assumption.
+Qed.
+
+(* a name given as the bytes nm is read back as the code points nm *)
+Theorem joliet_name_given_reachable nm : bytes nm -> MJ.mj_uname (utf16 nm) = nm.
+Proof. intros H. unfold MJ.mj_uname. rewrite (mj_dec_utf16 nm H). reflexivity. Qed.
+
+Print Assumptions mj_step_le.
+Print Assumptions mj_reach_names_ok.
+Print Assumptions joliet_read_master_reachable.
